@@ -13,7 +13,7 @@ import (
 
 func init() { Registry["C11"] = runC11 }
 
-const explanationC11 = "Decides structural necessary conditions of C11 on eval.RunDSL and its helpers: (R11.1) phase barrier — in RunDSL's CFG no call of a later phase (prepare/validate/finalize, by resolved callee or by the function value passed to WalkSets) can reach a call of an earlier phase, each later phase calls both the root-level set and WalkSets, and ranges over the whole root list obtained from Context.Roots; (R11.2) the Context.Errors gates sit between phases (everything that reaches a gate is of a strictly earlier phase than everything its nil branch reaches), execute→prepare and validate→finalize are separated by such a gate, and the error of Roots() is returned before any phase call; (R11.3) the four set runners have no break/return inside their range loops, validateSet records after its loop, Context.Record appends; (R11.4) each runner asserts its own interface and calls that interface's method; (R11.5) the execute loop re-reads Context.Roots() so that roots registered during execution are picked up and the later phases range over that re-read list; (R11.6) the dependency callbacks passed to sortDependencies depend on their argument; (R11.7) sortDependenciesR appends a root after recursing into its dependencies; (R11.8) every dependency flattening gets a visited set of its own (none shared across the loop over the roots); (R11.9) the cycle check skips only the pair of a root with itself. NOT decided: that Roots() returns a topological order and detects every cycle for every graph (a semantic claim about an algorithm over all graphs), termination, and what DSL functions do."
+const explanationC11 = "Decides structural necessary conditions of C11 on eval.RunDSL and its helpers: (R11.1) phase barrier — in RunDSL's CFG no call of a later phase (prepare/validate/finalize, by resolved callee or by the function value passed to WalkSets) can reach a call of an earlier phase, each later phase calls both the root-level set and WalkSets, and ranges over the whole root list obtained from Context.Roots; (R11.2) the Context.Errors gates sit between phases (everything that reaches a gate is of a strictly earlier phase than everything its nil branch reaches), execute→prepare and validate→finalize are separated by such a gate, and the error of Roots() is returned before any phase call; (R11.3) the four set runners have no break/return inside their range loops, validateSet records after its loop, Context.Record appends; (R11.4) each runner asserts its own interface and calls that interface's method; (R11.5) the execute loop re-reads Context.Roots() so that roots registered during execution are picked up and the later phases range over that re-read list; (R11.6) the dependency callbacks passed to sortDependencies depend on their argument; (R11.7) sortDependenciesR appends a root after recursing into its dependencies; (R11.8) every dependency flattening gets a visited set of its own (none shared across the loop over the roots); (R11.9) the cycle check skips only the pair of a root with itself; (R11.10) sortDependenciesR tests the dependency it descends into; (R11.11) runSet counts every element its inner loop consumes. NOT decided: that Roots() returns a topological order and detects every cycle for every graph (a semantic claim about an algorithm over all graphs), termination, and what DSL functions do."
 
 var phaseRunners = map[string]int{"runSet": 0, "prepareSet": 1, "validateSet": 2, "finalizeSet": 3}
 var phaseNames = []string{"execute", "prepare", "validate", "finalize"}
@@ -45,6 +45,7 @@ func runC11(c *an.Ctx) string {
 	r11Record(c)
 	r11Roots(c)
 	r11RootsLoops(c)
+	r11Progress(c)
 	return explanationC11
 }
 
@@ -722,4 +723,95 @@ func r11RootsLoops(c *an.Ctx) {
 		return true
 	})
 	report(c, "R11.9", f.Name+"#cycle-check", f, probs, "every ordered pair of distinct roots is tested for mutual dependency: the only skip is the pair of a root with itself")
+}
+
+// r11Progress (R11.10, R11.11). (R11.10) in sortDependenciesR the visited test
+// is made on the dependency about to be descended into - the key of the lookup
+// mentions the variable handed to the recursive call: testing anything else
+// follows only the first dependency of each root, the others and the cycles
+// through them are never seen. (R11.11) runSet resumes its outer loop at
+// set[executed:], so executed must count every element the inner loop consumes:
+// the increment comes before any statement that can leave the iteration, or elements are executed twice / the loop never
+// ends when a set holds a nil entry.
+func r11Progress(c *an.Ctx) {
+	if f := c.MustFunc("R11.10", "eval", "sortDependenciesR"); f != nil {
+		info := f.Pkg.TypesInfo
+		n := 0
+		ast.Inspect(f.Decl.Body, func(nd ast.Node) bool {
+			is, ok := nd.(*ast.IfStmt)
+			if !ok {
+				return true
+			}
+			// the guarded recursive call
+			var visited types.Object
+			ast.Inspect(is.Body, func(m ast.Node) bool {
+				if call, ok := m.(*ast.CallExpr); ok && an.Callee(info, call) == f.Obj && len(call.Args) > 0 {
+					visited = an.ObjOf(info, call.Args[0])
+				}
+				return true
+			})
+			if visited == nil {
+				return true
+			}
+			n++
+			mentions := false
+			ast.Inspect(is.Cond, func(m ast.Node) bool {
+				if ix, ok := m.(*ast.IndexExpr); ok {
+					ast.Inspect(ix.Index, func(k ast.Node) bool {
+						if id, ok := k.(*ast.Ident); ok && info.Uses[id] == visited {
+							mentions = true
+						}
+						return true
+					})
+				}
+				return true
+			})
+			c.Check(mentions, "R11.10", f.Name+"#visited-test", is.Pos(), "the visited test is made on the dependency that is descended into", "the visited test `"+an.Src(c.Fset, is.Cond)+"` does not look at "+visited.Name()+", the dependency the guarded recursive call descends into: only the first dependency of every root is followed")
+			return true
+		})
+		c.Floor("R11.10", n, 1, "guarded recursive descents in sortDependenciesR")
+	}
+	if f := c.MustFunc("R11.11", "eval", "runSet"); f != nil {
+		info := f.Pkg.TypesInfo
+		n := 0
+		ast.Inspect(f.Decl.Body, func(nd ast.Node) bool {
+			rs, ok := nd.(*ast.RangeStmt)
+			if !ok {
+				return true
+			}
+			sl, ok := an.Unparen(rs.X).(*ast.SliceExpr)
+			if !ok || sl.Low == nil {
+				return true
+			}
+			counter := an.ObjOf(info, sl.Low)
+			if counter == nil {
+				return true
+			}
+			n++
+			first := false
+			for _, st := range rs.Body.List {
+				if inc, ok := st.(*ast.IncDecStmt); ok && inc.Tok == token.INC && an.ObjOf(info, inc.X) == counter {
+					first = true
+					break
+				}
+				// anything that can leave the iteration before the increment
+				leaves := false
+				ast.Inspect(st, func(m ast.Node) bool {
+					switch m.(type) {
+					case *ast.BranchStmt, *ast.ReturnStmt:
+						leaves = true
+					case *ast.FuncLit:
+						return false
+					}
+					return true
+				})
+				if leaves {
+					break
+				}
+			}
+			c.Check(first, "R11.11", f.Name+"#progress("+counter.Name()+")", rs.Pos(), "every element consumed by the inner loop is counted before anything can skip it", "the loop ranges over the part of the set after "+counter.Name()+" but does not increment "+counter.Name()+" before the first statement that can leave the iteration: an element that is skipped before the increment is consumed without being counted, so later elements run twice or the outer loop never ends")
+			return true
+		})
+		c.Floor("R11.11", n, 1, "resumable loops in runSet")
+	}
 }
